@@ -103,6 +103,46 @@ class RunCtx:
                          dict(sig or {}, exc=type(e).__name__))
 
     def warm(self, fn, *a, **kw):
+        if getattr(self, "stale", False) and getattr(fn, "__self__", None) is None:
+            # history seam "this function has seen this object before, in another state": the first circuit among the
+            # arguments is edited in place through the public mutators (one or two gates retyped, one output mark
+            # flipped), the function is called and its outcome discarded, the edits are undone the same way, and only
+            # then the judged call is made.  Finds per-function memos keyed by less than the function depends on.
+            circ = next((x for x in a if hasattr(x, "graph") and hasattr(x, "blackboxes") and hasattr(x, "set_type")), None)
+            if circ is not None:
+                import random
+                self._stale_calls = getattr(self, "_stale_calls", 0) + 1
+                rng = random.Random(H(getattr(self.peer, "seed", 0), "stale-call", self._stale_calls))
+                g = circ.graph
+                multi = ("and", "nand", "or", "nor", "xor", "xnor")
+                gates = sorted(n for n in g.nodes if g.nodes[n].get("type") in multi + ("buf", "not"))
+                undo = []
+                try:
+                    for n in rng.sample(gates, min(len(gates), rng.randint(1, 2))):
+                        t = g.nodes[n]["type"]
+                        pool = ("buf", "not") if t in ("buf", "not") else multi
+                        undo.append(("type", n, t))
+                        circ.set_type(n, rng.choice([x for x in pool if x != t]))
+                    if gates and rng.random() < 0.5:
+                        n = rng.choice(gates)
+                        had = "output" in g.nodes[n]
+                        o = bool(g.nodes[n].get("output", False))
+                        undo.append(("output", n, o, had))
+                        circ.set_output(n, not o)
+                    try:
+                        scribble(fn(*a, **kw))
+                    except Exception:
+                        pass
+                finally:
+                    for u in reversed(undo):
+                        if u[0] == "type":
+                            circ.set_type(u[1], u[2])
+                        else:
+                            circ.set_output(u[1], u[2])
+                            if not u[3]:
+                                g.nodes[u[1]].pop("output", None)   # restore the exact representation
+                self.probe("function_saw_object_before_in_other_state")
+                self.log("stale-call", getattr(fn, "__name__", "?"))
         if getattr(self, "twice", False) and getattr(fn, "__self__", None) is None:
             # history seam "the same request served twice": a module-level library function is first called with the
             # very same argument objects, the caller edits whatever that call returned (as callers do with circuits
